@@ -40,6 +40,9 @@ def rnd(rng, a, b, digits=3):
     return round(rng.uniform(a, b), digits)
 
 
+LITHOLOGY = {"peridotite": "Peridotite", "gabbro": "Gabbro", "MORB": "MORB", "sediment": "Sediment"}
+
+
 def spreading_values(sv, ridges):
     """the spreading velocity at every ridge coordinate the way parse_entries assigns it: a number (or a list with one number in
     all) for every point, otherwise the numbers of the list in document order, one per ridge coordinate; None when the list
@@ -167,6 +170,9 @@ class Elab:
             self.uses_random = True
             return "CRandom (%s, %s, %s, %s, %s, %s)" % (mn, mx, self.op(m), mlist([nlit(c) for c in m["compositions"]]),
                                                        mlist([ml(x) for x in m.get("min value", [0.0])]), mlist([ml(x) for x in m.get("max value", [1.0])]))
+        if m["model"] == "tian water content":
+            return "CTian (%s, %s, %s, %s, %s, %s, %s, %s)" % (mn, mx, self.op(m), mlist([nlit(c) for c in m["compositions"]]), LITHOLOGY[m.get("lithology", "peridotite")],
+                                                            ml(m.get("density", 3000.0)), ml(m.get("initial water content", 5)), ml(m.get("cutoff pressure", 10)))
         self.unsupported = "composition model " + m["model"]
         return "CUniform (%s, %s, OReplace, [], [])" % (mn, mx)
 
@@ -318,6 +324,9 @@ class Elab:
                         mn, mx = float(m.get(kmin, 0.0)), float(m.get(kmax, 0.0))
                         cs.append("SCSmooth (%s, %s, %s, %s, %s, %s, %s)" % (ml(mn), ml(mx), ml(abs(mx - mn)), o, comps,
                                                                            mlist([ml(x) for x in m.get("top fractions", [1.0])]), mlist([ml(x) for x in m.get("bottom fractions", [0.0])])))
+                elif m["model"] == "tian water content" and not fault:
+                    cs.append("SCTian (%s, %s, %s, %s, %s, %s, %s, %s)" % (ml(m.get(kmin, 0.0)), ml(m.get(kmax, DMAX)), o, comps, LITHOLOGY[m.get("lithology", "peridotite")],
+                                                                         ml(m.get("density", 3000.0)), ml(m.get("initial water content", 5)), ml(m.get("cutoff pressure", 10))))
                 else:
                     self.unsupported = "slab/fault composition model " + m["model"]
             arms.append("KComp -> Some (MComp %s)" % mlist(cs))
@@ -603,6 +612,23 @@ class Gen:
             m["max depth"] = self.num(dmax - 4e4, dmax + 2e4, 0)
         return m
 
+    def tian_model(self, ncomp=4, slab=False):
+        """bound water content after Tian et al. 2019 (oceanic plates and subducting plates)"""
+        r = self.r
+        lith = r.choice(["peridotite", "gabbro", "MORB", "sediment"])
+        m = {"model": "tian water content", "compositions": r.sample(range(ncomp), r.randint(1, 2)), "lithology": lith}
+        if r.random() < 0.7:
+            m["initial water content"] = r.choice([0.5, 2.0, 5.0, 11.0])
+        if r.random() < 0.7:
+            m["cutoff pressure"] = {"peridotite": 10.0, "gabbro": 26.0, "MORB": 16.0, "sediment": 1.0}[lith] if r.random() < 0.6 else self.num(0.6, 30, 1)
+        if r.random() < 0.5:
+            m["density"] = self.num(2700, 3400, 0)
+        if r.random() < 0.4:
+            m["operation"] = self.op(comp=True)
+        if slab and r.random() < 0.4:
+            m["max distance slab top"] = self.num(1e4, 8e4, 0)
+        return m
+
     def vel_model(self, dmin, dmax):
         r = self.r
         m = {"model": "uniform raw", "velocity": [self.num(-0.1, 0.1, 4) for _ in range(3)]}
@@ -666,7 +692,7 @@ class Gen:
         return m
 
     def area_feature(self, name, spherical=False, kinds=("continental plate", "oceanic plate", "mantle layer"),
-                     centre=None, size=None, temp_allow=("uniform", "linear", "adiabatic", "chapman"), random_models=False, depth_arrays=0.25):
+                     centre=None, size=None, temp_allow=("uniform", "linear", "adiabatic", "chapman"), random_models=False, depth_arrays=0.25, water=0.3):
         r = self.r
         kind = r.choice(kinds)
         if spherical:
@@ -703,6 +729,8 @@ class Gen:
                 f["min depth"] = ents
         f["temperature models"] = [self.temp_model(kind, dmin, dmax, temp_allow, centre=(cx, cy), spherical=spherical) for _ in range(r.choice([0, 1, 1, 2, 3]))]
         f["composition models"] = [self.comp_model(dmin, dmax) for _ in range(r.choice([0, 1, 1, 2, 3]))]
+        if kind == "oceanic plate" and water and r.random() < water:
+            f["composition models"].insert(r.randint(0, len(f["composition models"])), self.tian_model())
         if r.random() < 0.6:
             f["velocity models"] = [self.vel_model(dmin, dmax) for _ in range(r.choice([1, 1, 2]))]
         if r.random() < 0.6:
@@ -823,6 +851,8 @@ class Gen:
     def slab_comp_model(self, kind, ncomp=4):
         r = self.r
         fault = kind == "fault"
+        if not fault and r.random() < 0.2:
+            return self.tian_model(ncomp, slab=True)
         k = r.choice(["uniform", "uniform", "smooth"])
         n = r.randint(1, 2)
         comps = r.sample(range(ncomp), n)
